@@ -901,6 +901,113 @@ pub fn suite_cap(ctx: &mut Ctx) {
             }
         }
     }
+    // implementation only: GIANT PERIODIC inputs -- an item (or two) inserted in front of more than 2^20 repetitions of a
+    // period of 1, 2 or 3 items, ending in the middle of a period: the clean-up has to slide the insertion all the way down
+    // (millions of loop rounds, cheap), and the result must be in normal form (C09) and a valid script (C02)
+    let reps: &[usize] = if ctx.tier == Tier::Quick { &[(1 << 20) + 7] } else { &[(1 << 20) + 7, (1 << 21) + 3] };
+    for &r in reps {
+        for (pi, period) in [vec![5u32], vec![5, 6], vec![5, 6, 7]].into_iter().enumerate() {
+            for alg in [Algorithm::Myers, Algorithm::Patience] {
+                if !ctx.take() {
+                    continue;
+                }
+                let n = r / period.len();
+                let body: Vec<u32> = (0..n).flat_map(|_| period.iter().copied()).chain(period.iter().take(period.len() / 2 + pi % 2).copied()).collect();
+                let mut old: Vec<u32> = vec![99];
+                old.extend_from_slice(&body);
+                old.push(77);
+                let mut new: Vec<u32> = period.clone();
+                new.extend_from_slice(&body);
+                new.push(77);
+                let c = Case::full(alg, &old, &new);
+                let req = format!("capture {} - 0 | <99, {} x period {:?} (+ part of a period), 77> | <one more period in front, no 99> | 0 {} 0 {}", alg_name(alg), n, period, old.len(), new.len());
+                let cap = run_capture(&c);
+                ctx.count("cap.giant_periodic_cases");
+                match &cap.ops {
+                    None => ctx.violation("C02", &req, "capture_diff panicked".to_string()),
+                    Some(ops) => {
+                        if let Err(e) = oracle::walk(&c.old, &c.new, 0, 0, ranges(&c), ops, true) {
+                            ctx.violation("C02", &req, e);
+                        } else if let Err(e) = oracle::normal_form(&c.old, &c.new, 0, 0, ops) {
+                            ctx.violation("C09", &req, e);
+                        }
+                    }
+                }
+            }
+        }
+    }
+    // items whose `==` is a TOLERANCE (|a - b| <= 1: reflexive, symmetric, not transitive) with a constant (lawful) hash, below
+    // and above 100 items, through `capture_diff_slices`: every Equal op must pair items that are `==`, the ops must cover both
+    // slices (numbering the items first would pair items that are only both equal to a third one)
+    {
+        #[derive(Clone, Copy, Debug, PartialOrd, Ord)]
+        struct Near(i64);
+        impl PartialEq for Near {
+            fn eq(&self, o: &Near) -> bool {
+                (self.0 - o.0).abs() <= 1
+            }
+        }
+        impl Eq for Near {}
+        impl std::hash::Hash for Near {
+            fn hash<H: std::hash::Hasher>(&self, h: &mut H) {
+                0u8.hash(h)
+            }
+        }
+        let ntol = if ctx.tier == Tier::Quick { 120 } else { 2000 };
+        for i in 0..ntol {
+            if !ctx.take() {
+                continue;
+            }
+            let mut rng = Rng::new(ctx.seed ^ 0x701e ^ (i as u64).wrapping_mul(0x9E3779B97F4A7C15));
+            let n = if i % 2 == 0 { rng.range(3, 40) } else { rng.range(101, 150) };
+            let old: Vec<Near> = (0..n).map(|k| Near(3 * k as i64 + rng.below(2) as i64)).collect();
+            let mut new: Vec<Near> = old.iter().map(|x| Near(x.0 + rng.below(3) as i64 - 1)).collect();
+            for _ in 0..rng.below(4) {
+                let at = rng.below(new.len());
+                new[at] = Near(new[at].0 + 1);
+            }
+            if rng.chance(1, 2) {
+                let at = rng.below(new.len());
+                new.remove(at);
+            }
+            let alg = ALGS[i % 3];
+            let req = format!("capture {} - 0 | <{} readings 3k + noise, == means |a-b| <= 1> | <the same readings jittered by at most 1, a few by 2> | 0 {} 0 {}", alg_name(alg), n, old.len(), new.len());
+            let r = std::panic::catch_unwind(|| similar::capture_diff_slices(alg, &old, &new));
+            ctx.count("cap.tolerance_item_cases");
+            match r {
+                Err(_) => ctx.violation("C02", &req, "capture_diff_slices panicked".to_string()),
+                Ok(ops) => {
+                    let (mut o, mut nn) = (0usize, 0usize);
+                    let mut bad = None;
+                    for op in &ops {
+                        let (or, nr) = (op.old_range(), op.new_range());
+                        if or.start != o || nr.start != nn {
+                            // the carried index of a Delete / Insert is not checked here (C11's known finding)
+                            if !(matches!(op.tag(), similar::DiffTag::Delete) && or.start == o) && !(matches!(op.tag(), similar::DiffTag::Insert) && nr.start == nn) {
+                                bad = Some(format!("{:?} does not start where the previous op stopped ({}, {})", op, o, nn));
+                                break;
+                            }
+                        }
+                        if op.tag() == similar::DiffTag::Equal {
+                            for t in 0..or.len() {
+                                if new[nr.start + t] != old[or.start + t] {
+                                    bad = Some(format!("{:?} pairs {:?} with {:?}, which are not ==", op, old[or.start + t], new[nr.start + t]));
+                                }
+                            }
+                        }
+                        o = or.end.max(o);
+                        nn = nr.end.max(nn);
+                    }
+                    if bad.is_none() && (o != old.len() || nn != new.len()) {
+                        bad = Some("the ops do not cover both slices".to_string());
+                    }
+                    if let Some(e) = bad {
+                        ctx.violation("C02", &req, e);
+                    }
+                }
+            }
+        }
+    }
     // one Myers call whose ranges are more than 8192 edits apart (implementation only: the validators
     // decide, the model is not run at this size)
     for (k, c) in far_apart_cases(ctx.seed).into_iter().enumerate() {
